@@ -383,6 +383,73 @@ let run_eng_line (line : string) (spec : string) (ad : string) (flags : string) 
           (String.split_on_char '|' steps) in
     "new=1 r=" ^ String.concat "|" outs
 
+(* ---------- property predicates on engine traces ---------- *)
+let cvprop = try Sys.getenv "CVPROP" with Not_found -> ""
+
+(* replays the MODEL through the steps and returns, per step, the state before
+   it and the parsed step; used to evaluate specification-side predicates on
+   the implementation's outputs *)
+let trace_of (line : string) spec ad flags steps =
+  let table = ptab_of_line line in
+  let ptab t = List.assoc_opt t table in
+  let d = modeldef_of_spec spec in
+  match new_enforcer d (adapter_of_spec ad) (String.contains flags 'w') with
+  | (s0, Ok _) ->
+    let s = ref s0 in
+    let tr = if steps = "-" then [] else
+        List.map (fun st ->
+            let k = step_of st in
+            let before = !s in
+            (match k with
+             | SOp o -> let (s', _) = step !s o in s := s'
+             | SReload -> let ((s', _), _) = reload_view !s in s := s'
+             | _ -> ());
+            (before, k, st)) (String.split_on_char '|' steps) in
+    Some (ptab, tr)
+  | _ -> None
+
+let impl_results (impl : string) : string list option =
+  let m = kv impl in
+  match List.assoc_opt "new" m, List.assoc_opt "r" m with
+  | Some "1", Some r -> Some (String.split_on_char '|' r)
+  | Some "1", None -> Some []
+  | _ -> None
+
+let pred_c01 line spec ad flags steps impl =
+  match trace_of line spec ad flags steps, impl_results impl with
+  | Some (ptab, tr), Some outs when List.length outs = List.length tr ->
+    List.for_all2 (fun (s, k, _) o ->
+        match k with
+        | SQuery (QEnforce rv) -> o = outcome_str (perm_ref_plain ptab s rv)
+        | SQuery (QEnforceCtx (sfx, rv)) -> o = outcome_str (perm_ref_ctx ptab s sfx rv)
+        | _ -> true) tr outs
+  | _ -> false
+
+(* C17: enforce_with_context(k, rv) immediately followed by enforce(rv) must agree *)
+let pred_c17 steps impl =
+  match impl_results impl with
+  | Some outs ->
+    let sts = if steps = "-" then [] else String.split_on_char '|' steps in
+    if List.length sts <> List.length outs then false else
+      let rec go sts outs = match sts, outs with
+        | s1 :: (s2 :: _ as st'), o1 :: (o2 :: _ as os') ->
+          let ok =
+            if String.length s1 > 4 && String.sub s1 0 4 = "?ec:" && String.length s2 > 3 && String.sub s2 0 3 = "?e:" then
+              (match String.split_on_char ':' s1, String.split_on_char ':' s2 with
+               | [_; _; v1], [_; v2] when v1 = v2 -> o1 = o2
+               | _ -> true)
+            else true in
+          ok && go st' os'
+        | _ -> true in
+      go sts outs
+  | None -> false
+
+let pred_eng line spec ad flags steps impl =
+  match cvprop with
+  | "C01" -> b01 (pred_c01 line spec ad flags steps impl)
+  | "C17" -> b01 (pred_c17 steps impl)
+  | _ -> "-"
+
 (* ---------- dispatch ---------- *)
 let run_case (line : string) (toks : string list) : string =
   match toks with
@@ -396,8 +463,9 @@ let run_case (line : string) (toks : string list) : string =
   | ["rm"; maxd; ops; qs] -> run_rm maxd ops qs
   | _ -> "?unknown-case"
 
-let pred_case (toks : string list) (impl : string) : string =
+let pred_case (line : string) (toks : string list) (impl : string) : string =
   match toks with
+  | ["eng"; spec; ad; flags; steps] | ["engc"; spec; ad; flags; steps] -> pred_eng line spec ad flags steps impl
   | ["eff"; r; seq] ->
     (match parse_eobs impl with
      | Some o -> b01 (c02_pred (erule_of r) (effs_of seq) o)
@@ -433,7 +501,7 @@ let () =
     let cs = read_lines f and os = read_lines g in
     let rec go cs os = match cs, os with
       | c :: cs', o :: os' ->
-        let r = try pred_case (toks_of c) o with e -> "?exn:" ^ Printexc.to_string e in
+        let r = try pred_case c (toks_of c) o with e -> "?exn:" ^ Printexc.to_string e in
         print_string r; print_char '\n'; go cs' os'
       | c :: cs', [] -> print_string "0\n"; ignore c; go cs' []
       | [], _ -> () in
